@@ -382,6 +382,11 @@ class Exec:
             se = a.struct_eq(b)
             if se is not None:
                 return se
+            # a literal containing a character the other side cannot contain
+            for lit, oth in ((a, b), (b, a)):
+                if lit.is_lit() and lit.lit() and all(isinstance(c, str) or c.incl is not None or c.excl for c in oth.chunks):
+                    if any(not any((ch in c) if isinstance(c, str) else c.may_contain(ch) for c in oth.chunks) for ch in lit.lit()):
+                        return False
             return a.z() == b.z()
         if isinstance(a, VTuple) and isinstance(b, VTuple):
             if len(a.items) != len(b.items):
